@@ -121,6 +121,54 @@ prop("C08", "bbs",
      (40000, 150000), (1800, 10800), profile="checked",
      exhaustive_subspaces=["every input length 0..=1024 for the five variable-length decoders and for blind_sign"])
 
+prop("C09", "bbs",
+     "one case = (suite, codec, mutation kind, position). Codecs: PublicKey, SecretKey, Signature, BlindSignature, PoKSignature, "
+     "Commitment, ZKPoK, BlindFactor, message scalar (octets) and public-key coordinates. Candidates: honest encodings, ALL their "
+     "single-bit flips, extensions (zero/random) and truncations by 1..=64 bytes, empty input, per scalar slot {0, r-1, r, r+1, 2r, "
+     "2^256-1}, per point slot {compression flag cleared, sort flag flipped, infinity, infinity+sort flag, infinity+non-zero body, "
+     "honest+infinity flag, x=p, x=p+x_small, all-ones, off-curve x, on-curve points OUTSIDE the prime-order subgroup (found by "
+     "search)}, uncompressed-coordinate analogues. Oracle: decode(b)=Ok(x) implies encode(x)=b; forbidden classes (wrong length, "
+     "trailing bytes, scalar>=r, off curve, non-subgroup, identity public key in both codecs, identity A / Abar / Bbar / D, e=0) must "
+     "be Err. Round trips (octets, coordinates, serde_json) of API-produced objects of 12 kinds must be the identity. Commitment "
+     "point, secret key and blind factor identity/zero are not in the property's list and are not asserted.",
+     BBS_BASE, (15000, 90000), (600, 3600),
+     exhaustive_subspaces=["all single-bit flips of one honest encoding per codec and suite", "extensions and truncations by every length 1..=64"])
+
+prop("C10", "bbs",
+     "one case = (suite, operation, input class[, thread count]). The independent reference implementation (refimpl.rs, first "
+     "required to reproduce all 256 fixture checks) runs side by side with the library. Byte equality: key_gen (ikm 0..=34,63..1000; "
+     "key_info 0..70000; key_dst 0..300 incl. the refusals), sk->pk, hash_to_scalar (msg 0..=300, dst 0..1000), messages_to_scalar "
+     "(list and single mapper), Generators::create (counts x 7 api ids, P1), sign (L classes x header classes up to 65536 B), "
+     "blind_sign on identical commitment octets. Decision equality (both directions: library-made artefacts judged by the reference, "
+     "reference-made by the library): verify, proof_verify, blind_sign/commitment validation, verify_blind_sign, blind_proof_verify "
+     "on honest and mutated artefacts (bit flips, trailing/truncated bytes, identity points, scalar=r, e=0, foreign key encodings, "
+     "index/message/L/header edits, re-labelling). Schedules: the same case list executed by 2/8/16 barrier-released threads in "
+     "per-thread shuffled order with random 0-200us spins between calls; every output compared with the single-threaded reference "
+     "result; the set of concurrently active operation-kind pairs is recorded (fewer than 20 distinct pairs => inconclusive). Zero "
+     "proof response scalars are outside the decision domain.",
+     BBS_BASE + ["the reference shares only the curve arithmetic / hash_to_curve / hash functions with the library"],
+     (5000, 40000), (900, 7200),
+     min_counters={"concurrent_kind_pairs": 20})
+
+prop("C11", "bbs",
+     "one case = (producing suite -> consuming suite, artefact kind, target interface, split) or (suite, api id, generator index / "
+     "prefix length). Replays: signature, blind signature, commitment, proof, blind proof made under one suite with the SAME secret "
+     "scalar installed in both suites, presented to every other (suite, interface) verifier with the most favourable arguments: "
+     "every split of the positions into signer/committed lists, blind factor none/zero/prover's; oracle: never Ok. Generators: "
+     "create(n, a) for 7 api ids x 2 expanders; one global set of compressed points decides duplicate-freeness within and "
+     "disjointness across all (expander, api id) sets; none is the identity, +-G1 base point or either suite's P1; "
+     "create(n,a)[..k] == create(k,a) for k<=16, powers of two, n-1; None == empty api id.",
+     BBS_BASE, (1500, 8000), (600, 3600))
+
+prop("C12", "bbs",
+     "one case = (suite, L, header class, position, step kind). History monitor: from an honest signature, a seeded walk of updates "
+     "(every position first for L<=5, then random positions; new value kinds: fresh, same as old, empty, long, two recurring values so "
+     "that earlier vectors are revisited). After EVERY step: verify(current vector) = Ok; e unchanged; A equals B(msgs)/(sk+e) computed "
+     "by the independent reference (path independence); verify(earlier different vectors) = Err; an update stating a wrong old value "
+     "does not verify for the intended vector. Out-of-range positions {L, L+1, 2L, 2^32, usize::MAX-1, usize::MAX} and n = usize::MAX "
+     "must return Err (a panic is a violation: build has overflow checks).",
+     BBS_BASE, (1500, 20000), (600, 3600), profile="checked")
+
 
 def dead_C08(drv, pid, tier, seed, binary, err):
     """The worker died (abort / stack overflow / OOM kill): find the last call without a ret in the flushed
